@@ -232,6 +232,7 @@ def r12_3(ctx, rep, roles):
         rep.violation("C12/R12.3/collect/shape", "cannot identify the time-of-death operand of garbage_collect (%d candidates)" % len(tod_atoms), where(gc))
         return
     TOD = next(iter(tod_atoms))
+    adds_of = {id(r): a for r, a in T.collection_items(eng, first_loop)}
 
     def canon2(t):
         if t == TOD:
@@ -249,7 +250,7 @@ def r12_3(ctx, rep, roles):
         for row in first_loop:
             try:
                 if all(oe.holds(T.rewrite_cond(c, canon2), asg) for c in row.cond if c[0] == "truth"):
-                    pushed = [e for e in row.calls() if sym.strip_all_generics(e[1]).endswith("Vec::push")]
+                    pushed = adds_of.get(id(row), [])     # Vec::push in a loop, or an item handed to collect()
                     res.append(bool(pushed))
             except oe.NeedAtom as ex:
                 bad = bad or "depends on %s" % sym.fmt(ex.atom)[:60]
